@@ -217,8 +217,8 @@ class Rewriter(ast.NodeTransformer):
                 return None
             inner = ast.Lambda(args=ast.arguments(posonlyargs=[], args=[ast.arg(arg=e.id) for e in tgt.elts], kwonlyargs=[],
                                                   kw_defaults=[], defaults=[]), body=body)
-            outer = ast.Lambda(args=ast.arguments(posonlyargs=[], args=[ast.arg(arg="__t")], kwonlyargs=[], kw_defaults=[], defaults=[]),
-                               body=ast.Call(func=inner, args=[ast.Starred(value=_name("__t"), ctx=ast.Load())], keywords=[]))
+            outer = ast.Lambda(args=ast.arguments(posonlyargs=[], args=[ast.arg(arg="_vc_t")], kwonlyargs=[], kw_defaults=[], defaults=[]),
+                               body=ast.Call(func=inner, args=[ast.Starred(value=_name("_vc_t"), ctx=ast.Load())], keywords=[]))
             return outer
 
         if kind == "dict":
@@ -258,7 +258,7 @@ class Rewriter(ast.NodeTransformer):
         node.iter = self.visit(node.iter)
         body = [x for s in node.body for x in self._as_list(self.visit(s))]
         orelse = [x for s in node.orelse for x in self._as_list(self.visit(s))]
-        assigned = [a for a in _assigned_names(node.body) if not a.startswith("__")]
+        assigned = [a for a in _assigned_names(node.body) if not (a.startswith("__") or a.startswith("_vc_"))]
         assigned += [m for m in _mutated_names(node.body) if m not in assigned]
         tnames = _assigned_names([node.target])
         native = ast.For(target=node.target, iter=_call(_vc("loop_native_iter"), kid), body=copy.deepcopy(body),
@@ -274,7 +274,7 @@ class Rewriter(ast.NodeTransformer):
         test = self.visit(node.test)
         body = [x for s in node.body for x in self._as_list(self.visit(s))]
         orelse = [x for s in node.orelse for x in self._as_list(self.visit(s))]
-        assigned = [a for a in _assigned_names(node.body) if not a.startswith("__")]
+        assigned = [a for a in _assigned_names(node.body) if not (a.startswith("__") or a.startswith("_vc_"))]
         assigned += [m for m in _mutated_names(node.body) if m not in assigned]
         guard = ast.If(test=_call(_vc("while_tick"), kid), body=[ast.Pass()], orelse=[])
         native = ast.While(test=copy.deepcopy(test), body=[guard] + copy.deepcopy(body), orelse=copy.deepcopy(orelse))
@@ -285,20 +285,20 @@ class Rewriter(ast.NodeTransformer):
     def _cut(self, kid, assigned, body, orelse, target, cond):
         L = lambda: _call(_name("locals"))
         stmts = []
-        stmts.append(ast.Assign(targets=[_name("__h", ast.Store())],
+        stmts.append(ast.Assign(targets=[_name("_vc_h", ast.Store())],
                                 value=_call(_vc("loop_pre"), kid, L(), ast.Tuple(elts=[_const(a) for a in assigned], ctx=ast.Load()))))
         for a in assigned:
-            stmts.append(ast.If(test=ast.Compare(left=_const(a), ops=[ast.In()], comparators=[_name("__h")]),
+            stmts.append(ast.If(test=ast.Compare(left=_const(a), ops=[ast.In()], comparators=[_name("_vc_h")]),
                                 body=[ast.Assign(targets=[_name(a, ast.Store())],
-                                                 value=ast.Subscript(value=_name("__h"), slice=_const(a), ctx=ast.Load()))],
+                                                 value=ast.Subscript(value=_name("_vc_h"), slice=_const(a), ctx=ast.Load()))],
                                 orelse=[]))
         stmts.append(ast.Expr(_call(_vc("loop_entry"), kid, L())))
-        stmts.append(ast.Assign(targets=[_name("__h", ast.Store())],
+        stmts.append(ast.Assign(targets=[_name("_vc_h", ast.Store())],
                                 value=_call(_vc("loop_havoc"), kid, L(), ast.Tuple(elts=[_const(a) for a in assigned], ctx=ast.Load()))))
         for a in assigned:
-            stmts.append(ast.If(test=ast.Compare(left=_const(a), ops=[ast.In()], comparators=[_name("__h")]),
+            stmts.append(ast.If(test=ast.Compare(left=_const(a), ops=[ast.In()], comparators=[_name("_vc_h")]),
                                 body=[ast.Assign(targets=[_name(a, ast.Store())],
-                                                 value=ast.Subscript(value=_name("__h"), slice=_const(a), ctx=ast.Load()))],
+                                                 value=ast.Subscript(value=_name("_vc_h"), slice=_const(a), ctx=ast.Load()))],
                                 orelse=[]))
         arb = []
         if target is not None:
@@ -307,7 +307,7 @@ class Rewriter(ast.NodeTransformer):
         if cond is not None:
             arb.append(ast.If(test=ast.UnaryOp(op=ast.Not(), operand=copy.deepcopy(cond)),
                               body=[ast.Expr(_call(_vc("stop"), _const("guard false")))], orelse=[]))
-        once = ast.For(target=_name("__once", ast.Store()), iter=ast.Tuple(elts=[_const(0)], ctx=ast.Load()),
+        once = ast.For(target=_name("_vc_once", ast.Store()), iter=ast.Tuple(elts=[_const(0)], ctx=ast.Load()),
                        body=copy.deepcopy(body) or [ast.Pass()],
                        orelse=[ast.Expr(_call(_vc("loop_iter_end"), kid, L()))])
         arb.append(once)
@@ -549,7 +549,7 @@ class Runtime:
     def _eval_inv(self, fr, loc, idx):
         spec = fr["spec"]
         eng = self.eng
-        v = NS({k: val for k, val in loc.items() if not k.startswith("__")}, idx=idx, ghost=getattr(eng, "ghost", {}), pre=fr.get("pre"))
+        v = NS({k: val for k, val in loc.items() if not (k.startswith("__") or k.startswith("_vc_"))}, idx=idx, ghost=getattr(eng, "ghost", {}), pre=fr.get("pre"))
         with eng.spec_mode():
             r = spec.inv(v)
         if not isinstance(r, dict):
@@ -572,7 +572,7 @@ class Runtime:
         eng = self.eng
         it = fr["iterable"]
         fr["epoch"] = eng.tick()
-        fr["pre"] = NS({k: (v.copy() if isinstance(v, SList) else v) for k, v in loc.items() if not k.startswith("__")})
+        fr["pre"] = NS({k: (v.copy() if isinstance(v, SList) else v) for k, v in loc.items() if not (k.startswith("__") or k.startswith("_vc_"))})
         if fr["spec"].mode == "inv":
             for nm, c in self._eval_inv(fr, loc, SV(z3.IntVal(0))).items():
                 eng.oblige(f"{key}/inv-entry/{nm}", c, kind="inv-entry")
@@ -591,7 +591,7 @@ class Runtime:
     def _defs_entry(self, fr, key, loc):
         eng = self.eng
         spec = fr["spec"]
-        v = NS({k: val for k, val in loc.items() if not k.startswith("__")}, ghost=getattr(eng, "ghost", {}))
+        v = NS({k: val for k, val in loc.items() if not (k.startswith("__") or k.startswith("_vc_"))}, ghost=getattr(eng, "ghost", {}))
         with eng.spec_mode():
             d = spec.defs(v)
         fr["defs"] = d
@@ -739,7 +739,7 @@ class Runtime:
         for nm, c in self._eval_inv(fr, loc, fr["idx"]).items():
             eng.assume(c)
         if fr["spec"].decreases is not None:
-            v = NS({k: val for k, val in loc.items() if not k.startswith("__")}, idx=fr["idx"], ghost=getattr(eng, "ghost", {}), pre=fr.get("pre"))
+            v = NS({k: val for k, val in loc.items() if not (k.startswith("__") or k.startswith("_vc_"))}, idx=fr["idx"], ghost=getattr(eng, "ghost", {}), pre=fr.get("pre"))
             with eng.spec_mode():
                 fr["measure0"] = fr["spec"].decreases(v)
         if eng.solver.check() == z3.unsat:
@@ -765,7 +765,7 @@ class Runtime:
         for nm, c in self._eval_inv(fr, loc, fr["idx"] + 1).items():
             eng.oblige(f"{key}/inv-preserve/{nm}", c, kind="inv-preserve")
         if fr["spec"].decreases is not None:
-            v = NS({k: val for k, val in loc.items() if not k.startswith("__")}, idx=fr["idx"] + 1, ghost=getattr(eng, "ghost", {}), pre=fr.get("pre"))
+            v = NS({k: val for k, val in loc.items() if not (k.startswith("__") or k.startswith("_vc_"))}, idx=fr["idx"] + 1, ghost=getattr(eng, "ghost", {}), pre=fr.get("pre"))
             with eng.spec_mode():
                 m1 = fr["spec"].decreases(v)
             m0 = fr["measure0"]
@@ -839,7 +839,7 @@ def _fingerprint(loc, depth=2):
                     walk(x, d - 1)
 
     for k in sorted(loc):
-        if not k.startswith("__"):
+        if not (k.startswith("__") or k.startswith("_vc_")):
             walk(loc[k], depth)
     return out
 
